@@ -15,11 +15,11 @@
    ASSUMPTIONS
    - strings are lists of Unicode scalar values; TZ=UTC (model/Datetime.v); [now] is today's
      day number (days since 1970-01-01);
-   - RELEASE arithmetic: the i32 position arithmetic of SUBSTRING wraps (the shipped binary and
-     the harness are release builds without overflow checks).  A debug build panics
-     ("attempt to subtract with overflow" / abs overflow) exactly when [substr_debug_overflow]
-     holds, i.e. for the position arguments -2147483648 and -2147483647;
-   - strings are shorter than 2^31 characters (`chars().count() as i32`);
+   - the position arithmetic of SUBSTRING is done in i64 on a parsed i32 and a character count,
+     so it cannot overflow (debug and release builds agree) and is modelled in Z;
+   - strings are shorter than 2^63 characters (`chars().count() as i64`, and a position cast
+     `as usize` from a negative i64 is beyond the end of the string): true of every String,
+     whose byte length is at most isize::MAX;
    - f64::min / f64::max on two zeros of different sign: IEEE 754 leaves the result open; the
      model returns the receiver (`self`), which is what the x86-64 code generated for the pinned
      toolchain does (validated by the differential test);
@@ -162,14 +162,12 @@ Definition initcap (x : str) : str := join [32] (map cap_word (split_ws x)).
 (* SUBSTRING                                                                 *)
 (* ------------------------------------------------------------------------- *)
 
-Definition wrap32 (z : Z) : Z := ((z + 2147483648) mod 4294967296 - 2147483648)%Z.
-(* i32::abs in release mode: abs(i32::MIN) = i32::MIN *)
-Definition abs32 (z : Z) : Z := wrap32 (Z.abs z).
-
-(* position after the `pos < 0` adjustment; [p] is the parsed first argument *)
+(* position after the `pos < 0` adjustment; [p] is the parsed first argument (an i32).
+   i64 arithmetic: pos = p as i64 - 1; if pos < 0 { pos = len as i64 - pos.abs() + 1 }.
+   |p| <= 2^31 and 0 <= len < 2^63, so no operation overflows: plain Z arithmetic. *)
 Definition substr_pos (len : nat) (p : Z) : Z :=
-  let pos := wrap32 (p - 1) in
-  if (pos <? 0)%Z then wrap32 (wrap32 (wrap32 (Z.of_nat len) - abs32 pos) + 1) else pos.
+  let pos := (p - 1)%Z in
+  if (pos <? 0)%Z then (Z.of_nat len - Z.abs pos + 1)%Z else pos.
 
 (* Iterator::take / Iterator::skip with binary counters (a unary [nat] of size 2^31 or 2^64
    cannot be built); [take_N_firstn] / [drop_N_skipn] relate them to firstn / skipn *)
@@ -184,15 +182,10 @@ Fixpoint drop_N (n : N) (x : str) : str :=
   | c :: r => if n =? 0 then x else drop_N (n - 1) r
   end.
 
-(* chars().skip(pos as usize): a negative i32 becomes >= 2^64 - 2^31, beyond any string *)
+(* chars().skip(pos as usize): a negative i64 (>= -2^31) becomes >= 2^64 - 2^31, beyond any
+   string, so everything is skipped *)
 Definition skip_pos (pos : Z) (x : str) : str :=
   if (pos <? 0)%Z then [] else drop_N (Z.to_N pos) x.
-
-Definition substr_debug_overflow (args : list str) : bool :=
-  match args with
-  | a :: _ => match parse_i32 a with Some p => (p <=? -2147483647)%Z | None => false end
-  | [] => false
-  end.
 
 Definition msg_substr_pos : str := Eval vm_compute in s "Could not parse position argument of SUBSTRING function".
 Definition msg_substr_len : str := Eval vm_compute in s "Could not parse length argument of SUBSTRING function".
@@ -595,9 +588,16 @@ Example ex_dow : get_value 0 FnDayOfWeek (s "2026-09-30") [] = Ok (VInt 4).
 Proof. vm_compute. reflexivity. Qed.
 Example ex_year_bad : get_value 0 FnYear (s "abc") [] = Ok VEmpty.
 Proof. vm_compute. reflexivity. Qed.
-(* FINDING: the date functions crash on a short signed non-number *)
-Example ex_year_panic : get_value 0 FnYear (s "+a") [] = Panic Datetime.site_days.
-Proof. vm_compute. reflexivity. Qed.
+(* a short signed non-number is an Err of parse_datetime, hence the empty value (it used to
+   be a panic); likewise a date written with non-ASCII digits *)
+Example ex_year_signed_garbage : get_value 0 FnYear (s "+a") [] = Ok VEmpty
+  /\ get_value 0 FnDayOfWeek (s "-x") [] = Ok VEmpty
+  /\ get_value 0 FnMonth [0x661; 0x662] [] = Ok VEmpty.
+Proof. vm_compute. repeat split; reflexivity. Qed.
+Example ex_substr_min : get_value 0 FnSubstring (s "hello") [s "-2147483648"] = Ok (VStr [])
+  /\ get_value 0 FnSubstring (s "hello") [s "-2147483647"] = Ok (VStr [])
+  /\ get_value 0 FnSubstring (s "hello") [s "2147483647"] = Ok (VStr []).
+Proof. vm_compute. repeat split; reflexivity. Qed.
 Example ex_from_base64_bad : get_value 0 FnFromBase64 (s "!!!") [] = Ok (VStr []).
 Proof. vm_compute. reflexivity. Qed.
 Example ex_from_base64_lossy : get_value 0 FnFromBase64 (s "/w==") [] = Ok (VStr [0xFFFD]).
